@@ -4,8 +4,8 @@ import common
 
 PROPS = "RotoV.Props.C15"
 MODULES = ["RotoV.Lemmas.ListCap", "RotoV.Lemmas.ListRaw", "RotoV.Lemmas.ListInv", "RotoV.Lemmas.ListRefine", "RotoV.Lemmas.ListNested",
-           "RotoV.Lemmas.ListJoin",
-           "RotoV.Model.ListM", "RotoV.Model.ListBase"]
+           "RotoV.Lemmas.ListJoin", "RotoV.Lemmas.ListFor", "RotoV.Lemmas.ListSelfEq",
+           "RotoV.Model.ListM", "RotoV.Model.ListBase", "RotoV.Model.ListFor"]
 
 
 def search(ctx):
@@ -19,7 +19,7 @@ def search(ctx):
 
 
 def run(ctx):
-    ctx.extract(["capacity", "listlocks", "listguards", "listjoin"])
+    ctx.extract(["capacity", "listlocks", "listguards", "listjoin", "listfor"])
     ctx.prove(PROPS, extra_modules=MODULES)
     if ctx.build_harness("c15"):
         ctx.harness("c15", ["run", ctx.seed, ctx.tier], timeout=3000)
@@ -32,6 +32,11 @@ def run(ctx):
         "a Rust string is its UTF-8 bytes and [S]::join is std's join_generic_copy as written in ListBase.sliceJoin (first element, then "
         "separator + element), proved equal to intersperse-and-flatten",
         "single-threaded histories only (interleavings are C16's); list lengths stay below 2^63 elements",
+        "an f64 element is its bit pattern (model value 2^64 + bits) and its == is RotoV.ListM.f64Eq (NaN: exponent all ones and "
+        "mantissa non-zero, equal to nothing; both zeros equal; otherwise the same bits) — compared with Rust's f64 == on every "
+        "pair of the values used, on every run (floats_tie); a script `for` is the operation sequence RotoV.ListM.forOps (own "
+        "handle, get by index until None, drop) parameterised by the lowering facts generated from src/mir/lower.rs; the "
+        "function's variables are handle variables of the model",
     ]
     return ctx.finish(
         level="proof",
@@ -44,9 +49,16 @@ def run(ctx):
              "leading / trailing / only / interleaved, nil, singleton, elements equal to the separator) x 2 builders x 6 "
              "separators (one byte, empty, two bytes, multi-byte, equal to an element) first; indices that are in range only "
              "after a truncating cast; after every operation the result, every handle's "
-             "len/capacity/contents and the live tracked elements are compared with shared Vecs (join: Vec<String>::join) and "
+             "len/capacity/contents and the live tracked elements are compared with shared Vecs (join: Vec<String>::join; "
+             "contains / index / == through the element type's own PartialEq) and "
              "with the Lean model; a class is distinct by (element type, operation, issuer, result shape, length bucket, handles "
-             "bound, capacity changed; join: separator, where the empty strings are)",
+             "bound, capacity changed; join: separator, where the empty strings are). Seventh element type f64 — a Copy "
+             "type whose == is not the comparison of its bytes (0.0 / -0.0, two NaNs, infinities, subnormals; lists built by "
+             "Rust and by scripts = with and without clone function, as left and right operand of both ==, contains, index; "
+             "nested List[List[f64]] scenarios) — and script loops with a body (`for x in l { …; if i == k { <body> } }` with "
+             "<body> = l = o | l = l + o | l = [] | r.items = o (field path) | o.push(v) | o.swap(i, j), o the walked list, an "
+             "alias or another list, k first / middle / last / never) as class representatives first, as a letter of the "
+             "exhaustive alphabets and in the random histories",
         search=search,
     )
 
